@@ -23,8 +23,8 @@ LEVEL_TEXT = {
     'C12': 'Unbounded deductive proof (Verus) that every JobList mutator preserves the five-clause consistency statement and never renumbers a job, from assumed finite-map contracts on slab/HashMap; the two iterator-based selectors assumed there are checked on the real code by Kani for bounded table shapes (bounded stand-in, labelled).',
 }
 LEVEL_TEXT.update({
-    'C11': 'Unbounded deductive proof (Verus) that every operation of the per-signal trap record preserves "installed disposition = max(internal need, user action)" from every state, refuses to trap or reset an initially ignored signal without override, leaves everything unchanged on failure, and handles the pending flag exactly once per catch; an inductive invariant over all histories, which is what the property quantifies over.',
-    'C08': 'Unbounded deductive proof (Verus) of the trap-reset clause only (command traps reset to default with the parent state saved, ignores kept, on subshell entry). The rest of C08 (isolation of all other state under every interleaving) is outside what a function contract can state and is not claimed.',
+    'C11': 'Unbounded deductive proof (Verus) that every operation of the per-signal trap record preserves "installed disposition = max(internal need, user action)" from every state, refuses to trap or reset an initially ignored signal without override, leaves everything unchanged on failure, and handles the pending flag exactly once per catch; the same invariant for all signals of the table under set_action, the internal-disposition functions and subshell entry (TrapSet::enter_subshell); an inductive invariant over all histories, which is what the property quantifies over.',
+    'C08': 'Unbounded deductive proof (Verus) of the trap-reset clause only (command traps reset to default with the parent state saved, ignores kept, on subshell entry: per record and for the whole table, TrapSet::enter_subshell). The rest of C08 (isolation of all other state under every interleaving) is outside what a function contract can state and is not claimed.',
 })
 LEVEL_TEXT.update({
     'C01': 'Kernel only. Unbounded deductive proof (Verus): Ranges::next equals a reference IFS splitter on every input; only unquoted expansion results are classified as separators; the unset-or-null table of the switch forms equals XCU 2.6.2. Bounded (Kani, concrete enumeration): the real Ifs::new/non_whitespaces/Ranges::next against an executable reference for five IFS values and inputs of <= 2-3 characters. The statement as a whole (all expansion forms x all shell states) runs through async code and is not decided.',
@@ -47,7 +47,7 @@ NOTE = {
     'C12': 'Trusted: Verus/Z3, Kani/CBMC, assumed contracts for slab::Slab and (in Kani) a linear-scan stand-in for std HashMap; selectors assumed in Verus and bounded-checked in Kani (<= 3 slots quick); pid-reuse precondition from the property quantifier.',
 }
 NOTE.update({
-    'C11': 'Trusted: Verus/Z3; model SignalSystem trait (sync, &mut self); async/await stripped; hash_map::Entry contract used for btree_map::Entry; derived PartialEq/Ord assumed structural. Not covered: TrapSet dispatch, timing of trap execution.',
+    'C11': 'Trusted: Verus/Z3; model SignalSystem trait (sync, &mut self); async/await stripped; hash_map::Entry contract used for btree_map::Entry; derived PartialEq/Ord assumed structural; iteration over the table through an assumed model of the mutable map iterator. Covered on the table: set_action, internal dispositions, enter_subshell, catch/take of a named signal. Not covered: take_caught_signal, timing of trap execution.',
     'C08': 'Decides one clause of C08 (trap reset on subshell entry) and nothing else; same trusted base as C11.',
 })
 NOTE.update({
